@@ -148,6 +148,9 @@ type ingestRequest struct {
 	rows       []map[string]any
 	doneChan   chan error
 	forceFlush bool // if true, this is a force flush request
+
+	// verifID correlates hook events under the verif build tag (always 0 without it).
+	verifID int64
 }
 
 type partitionBuffer struct {
@@ -172,10 +175,13 @@ func (b *BloomSearchEngine) IngestRows(ctx context.Context, rows []map[string]an
 	defer b.stateMu.RUnlock()
 
 	if b.stopped {
+		verifEvent("ingest.refused", 0, 0)
 		return ErrEngineStopped
 	}
 
 	req := &ingestRequest{rows: rows, doneChan: doneChan}
+	req.verifID = verifNextID()
+	verifEvent("ingest.try", req.verifID, int64(len(rows)))
 
 	// Sending under the read lock means Stop cannot set stopped (and cancel
 	// b.ctx) until this send lands, so the shutdown drain always sees it. The
@@ -183,8 +189,10 @@ func (b *BloomSearchEngine) IngestRows(ctx context.Context, rows []map[string]an
 	// cannot block Stop indefinitely.
 	select {
 	case b.ingestChan <- req:
+		verifEvent("ingest.sent", req.verifID, 0)
 		return nil
 	case <-ctx.Done():
+		verifEvent("ingest.ctxerr", req.verifID, 0)
 		return ctx.Err()
 	}
 }
@@ -197,19 +205,24 @@ func (b *BloomSearchEngine) IngestRows(ctx context.Context, rows []map[string]an
 func (b *BloomSearchEngine) Flush(ctx context.Context) error {
 	b.stateMu.RLock()
 	if b.stopped {
+		verifEvent("ingest.refused", 0, 0)
 		b.stateMu.RUnlock()
 		return ErrEngineStopped
 	}
 
 	doneChan := make(chan error, 1)
 	req := &ingestRequest{forceFlush: true, doneChan: doneChan}
+	req.verifID = verifNextID()
+	verifEvent("flush.try", req.verifID, 0)
 
 	select {
 	case b.ingestChan <- req:
+		verifEvent("ingest.sent", req.verifID, 0)
 		b.stateMu.RUnlock()
 		// Wait for flush to complete (once committed, let it finish)
 		return <-doneChan
 	case <-ctx.Done():
+		verifEvent("ingest.ctxerr", req.verifID, 0)
 		b.stateMu.RUnlock()
 		return ctx.Err()
 	}
@@ -217,6 +230,7 @@ func (b *BloomSearchEngine) Flush(ctx context.Context) error {
 
 func (b *BloomSearchEngine) ingestWorker() {
 	defer func() {
+		verifEvent("actor.exit", 0, 0)
 		close(b.ingestDone)
 		b.wg.Done()
 	}()
@@ -235,6 +249,7 @@ func (b *BloomSearchEngine) ingestWorker() {
 	for {
 		select {
 		case <-b.ctx.Done():
+			verifEvent("actor.ctxdone", 0, 0)
 			b.logger.Debug("ingest worker stopping; draining accepted requests")
 			// Stop set the stopped flag before canceling b.ctx, so ingestChan
 			// can no longer receive new requests: draining until empty
@@ -244,6 +259,7 @@ func (b *BloomSearchEngine) ingestWorker() {
 			for {
 				select {
 				case req := <-b.ingestChan:
+					verifEvent("actor.take", req.verifID, 0)
 					b.processIngestRequest(
 						b.flushCtx,
 						req,
@@ -254,6 +270,7 @@ func (b *BloomSearchEngine) ingestWorker() {
 						&bufferStartTime,
 					)
 				default:
+					verifEvent("actor.drainflush", 0, 0)
 					// Flush any remaining buffered data (and ack any
 					// remaining waiters) before exiting.
 					b.flushBufferedData(
@@ -267,6 +284,7 @@ func (b *BloomSearchEngine) ingestWorker() {
 				}
 			}
 		case req := <-b.ingestChan:
+			verifEvent("actor.take", req.verifID, 0)
 			// Process the batch of rows
 			b.processIngestRequest(
 				b.flushCtx,
@@ -280,6 +298,7 @@ func (b *BloomSearchEngine) ingestWorker() {
 		case <-ticker.C:
 			// Check for time-based flush
 			if bufferedRowCount > 0 && !bufferStartTime.IsZero() && time.Since(bufferStartTime) >= b.config.MaxBufferedTime {
+				verifEvent("actor.tick.flush", 0, 0)
 				b.flushBufferedData(
 					partitionBuffers,
 					&doneChans,
@@ -341,6 +360,7 @@ func (b *BloomSearchEngine) processIngestRequest(
 	// request in that case, so the ack is ordered behind all in-flight flush
 	// work and Flush never returns before earlier rows are durable.
 	if req.forceFlush {
+		verifEvent("actor.force", req.verifID, 0)
 		*doneChans = append(*doneChans, req.doneChan)
 		b.flushBufferedData(
 			partitionBuffers,
@@ -355,6 +375,7 @@ func (b *BloomSearchEngine) processIngestRequest(
 	// An empty batch has nothing to make durable: ack immediately and leave
 	// the buffers untouched (no empty partition buffer, no 0-row block).
 	if len(req.rows) == 0 {
+		verifEvent("actor.acknow", req.verifID, 0)
 		sendOptionalWithContext(ctx, req.doneChan, nil)
 		return
 	}
@@ -381,12 +402,14 @@ func (b *BloomSearchEngine) processIngestRequest(
 		for i, row := range rows {
 			rowBytes, err := json.Marshal(row)
 			if err != nil {
+				verifEvent("actor.reject", req.verifID, 0)
 				sendOptionalWithContext(ctx, req.doneChan, fmt.Errorf("failed to serialize row: %w", err))
 				return
 			}
 
 			// Check if row is too large for uint32 length prefix
 			if len(rowBytes) > 0xFFFFFFFF {
+				verifEvent("actor.reject", req.verifID, 0)
 				sendOptionalWithContext(ctx, req.doneChan, fmt.Errorf("row too large: %d bytes exceeds maximum of %d bytes", len(rowBytes), 0xFFFFFFFF))
 				return
 			}
@@ -530,11 +553,14 @@ func (b *BloomSearchEngine) processIngestRequest(
 		}
 	}
 
+	verifEvent("actor.buftotals", int64(*bufferedRowCount), int64(*bufferedBytes))
+	verifEvent("actor.buffer", req.verifID, 0)
 	// Store the doneChan
 	*doneChans = append(*doneChans, req.doneChan)
 
 	// Trigger flush if needed
 	if shouldFlush {
+		verifEvent("actor.bufflush", req.verifID, 0)
 		b.logger.Debug("flush starting",
 			"partitions", len(partitionBuffers), "rows", *bufferedRowCount, "bytes", *bufferedBytes)
 		b.flushBufferedData(
@@ -560,10 +586,13 @@ func (b *BloomSearchEngine) triggerFlush(partitionBuffers map[string]*partitionB
 		doneChans:        doneChans,
 	}
 
+	verifEvent("fq.try", int64(len(doneChans)), int64(len(partitionBuffers)))
 	select {
 	case b.flushChan <- flushReq:
+		verifEvent("fq.sent", 0, 0)
 		// Successfully queued for flush
 	case <-b.flushCtx.Done():
+		verifEvent("fq.abandon", 0, 0)
 		// Shutdown deadline expired: the flush worker will not take this
 		// request. Deliver the failure to ready waiters; flushCtx is already
 		// canceled so blocked channels are given up immediately.
